@@ -1,2 +1,169 @@
-// Package c08: check for property C08 (see /verif/DESIGN.md §3 C08).
+// Package c08: absent and empty values obey the documented null-data algebra
+// (see /verif/DESIGN.md §3 C08).
+//
+// The space is finite: 12 operand kinds (several witness values each) x every
+// binary operator, every unary function of the builtin table, min/max on all
+// kind triples, and every assignment-target form x every absent-producing
+// right-hand side. Every cell is evaluated by calling the real BIF and again
+// through the DSL; the oracle is a set of rule predicates written from the
+// documentation (rules.go), the tables printed in the null-data reference
+// (table.go) and laws evaluated on the real code on both sides.
 package c08
+
+import (
+	"fmt"
+	"strings"
+
+	"verif/harness/vf"
+)
+
+func init() {
+	vf.Register(&vf.CheckDef{ID: "C08", Level: "model_checking", Run: run,
+		Workers: map[string]vf.WorkerFunc{"cells": cellsWorker, "dsl": dslWorker, "assign": assignWorker}})
+}
+
+func run(c *vf.Ctx) {
+	c.Rule = "cells = (function, operand-kind tuple): every binary operator x all ordered pairs of witnesses of the 12 kinds, every unary function of the builtin table x all witnesses, min/max x all kind triples, each evaluated by direct BIF call and through `mlr put`; plus every assignment-target form x every absent right-hand side, every compound assignment x operand kinds, and the accumulation idiom over all record sequences up to the length bound. distinct_nontrivial = number of distinct (function, kind tuple) cells on which at least one documented rule was asserted + assignment/compound/accumulation cases (each distinct by construction)"
+	c.Assume("cells no documented rule speaks about (e.g. array + map, string with absent, JSON null with anything) are evaluated and counted as unconstrained, never asserted")
+	c.Assume("absent - x and absent .- x may be x or -x, absent / x and absent ./ x may be x or 1/x: the null-data reference says both 'return the other operand' and 'absent acts like zero/one'")
+	c.Assume("empty with a number for / // % ** ./ .+ .- .* and the bitwise operators: either the number or empty is accepted ('most functions of empty produce empty' vs 'similar to +'); only + - * min max are asserted exactly")
+	c.Assume("the dot operator with a map on the left is map traversal in the DSL (documented) and is excluded from the algebra")
+	c.Assume("functions with side effects or randomness (system exec stat os hostname version urand*) and ternary functions are not evaluated; NaN/Inf/overflow values belong to C07")
+	c.Assume("typed local declarations (str/num/map/funct x = absent), `$* = absent`, `@* = absent`, `$[absent] = ..`, `@[absent] = ..` and a map literal with an absent key may abort with an error instead of being skipped; either way no key may appear")
+	c.Assume("error combined with absent is asserted only where the (+), (&&), (||) tables of the null-data reference print it")
+
+	rc := c.RunPool(vf.PoolSpec{Worker: "cells", Shards: 48})
+	rd := c.RunPool(vf.PoolSpec{Worker: "dsl", Shards: 64})
+	c.RunPool(vf.PoolSpec{Worker: "assign", Shards: 64})
+
+	union := func(name string) map[string]bool {
+		m := map[string]bool{}
+		for k := range rc.Sets[name] {
+			m[k] = true
+		}
+		for k := range rd.Sets[name] {
+			m[k] = true
+		}
+		return m
+	}
+	cells, asserted, uncon := union("cells"), union("asserted-cells"), union("unconstrained-cells")
+	for k := range asserted {
+		delete(uncon, k)
+	}
+	// DistinctNontrivial was summed from the assign worker's Nontrivial(); add the asserted cells
+	c.DistinctNontrivial += int64(len(asserted))
+	c.Extra["distinct_cells_evaluated"] = len(cells)
+	c.Extra["distinct_cells_asserted"] = len(asserted)
+	c.Extra["distinct_cells_unconstrained"] = len(uncon)
+	c.Extra["distinct_outcomes"] = len(union("outcomes"))
+	c.Extra["witnesses"] = len(witnesses(!c.Quick()))
+
+	// typeof classifies: one name per kind, names distinct (direct route)
+	byKind, byName := map[string]map[string]bool{}, map[string]map[string]bool{}
+	for m := range rc.Sets["typeof"] {
+		kv := strings.SplitN(m, "=", 2)
+		if byKind[kv[0]] == nil {
+			byKind[kv[0]] = map[string]bool{}
+		}
+		if byName[kv[1]] == nil {
+			byName[kv[1]] = map[string]bool{}
+		}
+		byKind[kv[0]][kv[1]] = true
+		byName[kv[1]][kv[0]] = true
+	}
+	if len(byKind) != int(nKinds) {
+		c.Broken("typeof was exercised on %d of %d kinds", len(byKind), nKinds)
+	}
+	for k, ns := range byKind {
+		if len(ns) != 1 {
+			c.Violation("R6.typeof-stable:"+k, fmt.Sprintf("typeof names %s values %v", k, sortedKeys(ns)), nil)
+		}
+	}
+	for n, ks := range byName {
+		if len(ks) != 1 {
+			c.Violation("R6.typeof-distinct:"+n, fmt.Sprintf("typeof gives %q for the distinct kinds %v", n, sortedKeys(ks)), nil)
+		}
+	}
+	c.Extra["typeof_names"] = sortedKeys(rc.Sets["typeof"])
+
+	// vacuity guards: every operator, kind and rule was exercised
+	var missing []string
+	for _, op := range binops() {
+		if c.Counters["op:"+op.tok] == 0 {
+			missing = append(missing, "op:"+op.tok)
+		}
+	}
+	for k := K(0); k < nKinds; k++ {
+		if c.Counters["kind:"+k.String()] == 0 {
+			missing = append(missing, "kind:"+k.String())
+		}
+	}
+	for _, r := range []string{"R1a.absent-absent", "R1b.absent-unit", "R1b.absent-ignored", "R2.empty-number", "R2.empty-number-lenient", "R2.empty-loses", "R2.empty-least-string", "R2.empty-empty", "R2.empty-concat",
+		"R3.error-absorbs", "R4.unary-absent", "R4.unary-empty", "R4.unary-error", "R5.commutative-kind", "R5v.commutative-value", "R6.is-predicate", "R6.asserting", "R7.coalesce",
+		"T.doc-table", "L.dsl-equals-direct", "B.table-binding", "W.witness", "V.single-argument", "V.numbers-null-loses", "A.skip-absent-rhs", "A.skip-absent-key", "A.compound", "A.accumulate"} {
+		if c.Counters["asserted:"+r] == 0 {
+			missing = append(missing, "rule:"+r)
+		}
+	}
+	if len(missing) > 0 {
+		c.Extra["never_exercised"] = missing
+		if c.NumViolations() == 0 {
+			// with violations present a premise may legitimately have failed everywhere (e.g. is_absent broken)
+			c.Broken("never exercised: %s", strings.Join(missing, " "))
+		}
+	}
+
+	// regroup the flat counters for the evidence file
+	group := func(prefix string) map[string]int64 {
+		m := map[string]int64{}
+		for k, v := range c.Counters {
+			if strings.HasPrefix(k, prefix) {
+				m[strings.TrimPrefix(k, prefix)] = v
+				delete(c.Counters, k)
+			}
+		}
+		return m
+	}
+	c.Extra["hits_per_operator"] = group("op:")
+	c.Extra["hits_per_kind"] = group("kind:")
+	c.Extra["hits_per_function_class"] = group("class:")
+	c.Extra["hits_per_lvalue_form"] = group("lvalue:")
+	c.Extra["hits_per_absent_rhs"] = group("rhs:")
+	c.Extra["assertions_per_rule"] = group("asserted:")
+	c.Extra["violations_per_rule"] = group("violated:")
+	c.Extra["evaluations_per_route"] = group("route:")
+	c.Extra["accepted_aborts"] = group("accepted-abort:")
+	for _, s := range []string{"unscoped-binary-functions", "unclassified-arithmetic-binary", "unmodelled-is-predicates", "panics", "rhs-not-absent", "unary-of-absent", "compound-run-failed"} {
+		l := sortedKeys(union(s))
+		if s == "unary-of-absent" {
+			// summary: how many unary functions outside the asserted classes return absent for absent
+			n, abs := 0, 0
+			for _, e := range l {
+				n++
+				if strings.HasSuffix(e, "->absent") {
+					abs++
+				}
+			}
+			c.Extra["unary_functions_of_absent"] = map[string]int{"functions": n, "returning_absent": abs}
+			var others []string
+			for _, e := range l {
+				if !strings.HasSuffix(e, "->absent") {
+					others = append(others, e)
+				}
+			}
+			c.Extra["unary_functions_of_absent_not_absent"] = others
+			continue
+		}
+		if len(l) > 60 {
+			l = append(l[:60], fmt.Sprintf("... %d more", len(l)-60))
+		}
+		c.Extra[strings.ReplaceAll(s, "-", "_")] = l
+	}
+	if l, _ := c.Extra["unclassified_arithmetic_binary"].([]string); len(l) > 0 {
+		c.Exhaustive = false
+		c.Extra["inexhaustive"] = []string{"arithmetic/math binary functions of the builtin table that the rule table does not classify: " + strings.Join(l, " ")}
+	}
+	if l, _ := c.Extra["unmodelled_is_predicates"].([]string); len(l) > 0 {
+		c.Exhaustive = false
+	}
+}
